@@ -151,14 +151,14 @@ Definition of_pres {A} (f : A -> expect) (r : pres A) : expect :=
   | POutOfFuel => EInternal "OutOfFuel"
   end.
 
-Definition run_model (fixed : bool) (c : ccase) : expect :=
+Definition run_model (fixed : bool) (cap : option nat) (c : ccase) : expect :=
   let lf := case_lf c in
   match c_kind c with
   | KPy => of_pres (fun r => EOkPy (fst r) (snd r)) (extract_python_block (c_lines c) (c_start c))
   | KCond => of_pres (fun r => EOkTok (fst r) (snd r))
-                     (extract_conditional_block_v fixed lf (c_lines c) (c_start c))
+                     (extract_conditional_block_v fixed cap lf (c_lines c) (c_start c))
   | KLoop => of_pres (fun r => EOkTok (fst r) (snd r))
-                     (extract_loop_block_v fixed lf (c_lines c) (c_start c))
+                     (extract_loop_block_v fixed cap lf (c_lines c) (c_start c))
   | KJoin => of_pres (fun r => EOkJoin (fst (fst r)) (snd (fst r)) (snd r))
                      (extract_join_choice_block lf (c_lines c) (c_start c) (c_indent c))
   end.
@@ -177,7 +177,11 @@ Definition expect_eqb (m e : expect) : bool :=
   | _, _ => false
   end.
 
-Definition case_bad_fixed (c : ccase) : bool := negb (expect_eqb (run_model true c) (c_expect c)).
-Definition case_bad_cur (c : ccase) : bool := negb (expect_eqb (run_model false c) (c_expect c)).
-Definition case_show_fixed (c : ccase) : expect := run_model true c.
-Definition case_show_cur (c : ccase) : expect := run_model false c.
+(* fixed = /repo + F11a + F11b; a = /repo + F11a; cur = /repo unpatched *)
+Definition case_bad_fixed (c : ccase) : bool :=
+  negb (expect_eqb (run_model true (Some max_block_depth) c) (c_expect c)).
+Definition case_bad_a (c : ccase) : bool := negb (expect_eqb (run_model true None c) (c_expect c)).
+Definition case_bad_cur (c : ccase) : bool := negb (expect_eqb (run_model false None c) (c_expect c)).
+Definition case_show_fixed (c : ccase) : expect := run_model true (Some max_block_depth) c.
+Definition case_show_a (c : ccase) : expect := run_model true None c.
+Definition case_show_cur (c : ccase) : expect := run_model false None c.
